@@ -25,7 +25,11 @@ CLAIMED['C12'] = dict(text='RT.tla models add / remove / re-key / staleness in t
              ref='DESIGN.md section 5 C12', technique='TLA+ RT module: TLC exhaustive MC + TLC trace validation of recorded public-API operations')
 CLAIMED['C16'] = dict(text='MostRecent.tla models the fold over the delivered stream; TLC checks the L1 formula for every ordered sub-sequence (responses may be lost) of seq patterns with gaps, duplicates and ties, and generates those arrival sequences; each is executed on a real threaded node through the real API wrappers (async flavour polled by hand, sync flavour on a helper thread) against fake storage peers, and TLC judges the returned item against the observed arrival order.',
              ref='DESIGN.md section 5 C16', technique='TLA+ MostRecent module: TLC exhaustive MC + TLC-generated arrival orders replayed through the real API + TLC trace validation')
-NOTE = {'C16': 'Trusted base: TLC; the lock-step simulator (production actor::run thread); fake peers signing authentic items; arrival order read from the simulator datagram log.', 'C11': RT_NOTE, 'C12': RT_NOTE, 'C19': 'Trusted base: TLC, CommunityModules Bitwise; the harness char->code point conversion. The 2^28 sweep is a Rust comparison against a reference that TLC validates on sampled vectors, not a TLC verdict.', 'C03': SERVER_NOTE, 'C04': SERVER_NOTE, 'C15': SERVER_NOTE + ' CRC32C token forgery by linearity is out of scope (design matter).'}
+CLAIMED['C10'] = dict(text='Krpc.tla defines the space of buildable messages as records of labels and Encode(m), the bencode dictionary (BEP5/43/44/signed-peers key names, compact formats) the wire form must be. TLC enumerates the space (one state per message); each message is built through the H3 mirror, encoded by the library, decoded by the independent harness codec and compared by TLC with Encode(m); canonical form and decode(encode(m)) equivalence are checked per message, and the BEP5 example messages are decoded, compared with their stated values and re-encoded.',
+             ref='DESIGN.md section 5 C10', technique='TLA+ Krpc module as wire-format oracle: TLC enumeration of the message space + TLC validation of observed dictionaries / round trips')
+CLAIMED['C05'] = dict(text='The structured neighbourhood of valid KRPC messages is a TLA+ state space (MC_KrpcShapes: base message x field path x deviation, pairs in the thorough tier); TLC enumerates it, the harness serialises every shape with its own encoder and feeds it - with truncations and byte mutations - to the decoder, to live server and client nodes (unsolicited and as the reply to their own in-flight requests) and, for error replies, to real API callers; TLC judges the recorded liveness observations (no panic, node still answers a ping, calls still complete).',
+             ref='DESIGN.md section 5 C05', technique='TLA+ shape space enumerated by TLC, replayed on decoder / live nodes / API callers; liveness observations judged by TLC')
+NOTE = {'C10': 'Trusted base: TLC; the harness bencode/KRPC codec (independent of serde_bencode); the H3 WireMessage mirror of the crate-private Message.', 'C05': 'Trusted base: TLC; catch_unwind / thread-death detection in the simulator; the shape space is the bounded neighbourhood stated in MC_KrpcShapes plus seeded random mutations - not all byte strings up to the MTU.', 'C16': 'Trusted base: TLC; the lock-step simulator (production actor::run thread); fake peers signing authentic items; arrival order read from the simulator datagram log.', 'C11': RT_NOTE, 'C12': RT_NOTE, 'C19': 'Trusted base: TLC, CommunityModules Bitwise; the harness char->code point conversion. The 2^28 sweep is a Rust comparison against a reference that TLC validates on sampled vectors, not a TLC verdict.', 'C03': SERVER_NOTE, 'C04': SERVER_NOTE, 'C15': SERVER_NOTE + ' CRC32C token forgery by linearity is out of scope (design matter).'}
 NA_REASON = {}
 
 def main():
